@@ -1,14 +1,262 @@
-import PeliteModel.Spec.PatternSem
-import PeliteModel.Model.Pattern
-/-! C11 (semantic half) — property theorems.  (Under construction: see Lemmas/PatternSem.lean.) -/
+import PeliteModel.Lemmas.PatternParse
+import PeliteModel.Lemmas.PatternSem
+/-!
+C11 (semantic half) — "pattern strings mean what the syntax documentation says".
+
+Reference side (`Spec/PatternSem.lean`, written from the documentation of `pattern::parse`, the `Atom`
+docs and the proc-macro docs): the syntax tree `Item` / `Pat`, the printer `render sty p` (every spelling
+of a pattern string: white space is part of the tree, hex / alignment letter case is the `Style`), the
+side conditions `WF p`, the denotational semantics `denote S p c : Option (cursor' × captures)` and the
+reference compiler `compile p : List Atom`.
+
+Implementation side: `Pattern.parse` (model of `pattern::parse`, Model/Pattern.lean) and `Exec.run`
+(model of `Scanner::exec` → `Exec::exec` / `exec_many`, Model/Exec.lean) over the abstract image
+interface `ScanI` (`ofView`: `impl Scan for P: Pe`, both formats, file and mapped; `ofRaw`: `&[u8]`).
+
+* **T1** `C11_parse_render` — `parse (render sty p) = ok (compile p)` for EVERY well-formed tree.
+* **T2** `C11_exec_compile_partial` — `run S (compile p) c save₀ = ok (⟦p⟧ S c ≠ none, save)` and `save`
+  holds every specified capture, for every well-formed tree IN THE FRAGMENT `InFragment p`, every
+  well-behaved coherent image interface (hence PE32 / PE32+, file / view), every cursor, every save array.
+  Outside the fragment the statement is FALSE of the implementation: `C11_deviation_*`.
+* **T3** `C11_pattern_string_semantics_partial` — the two composed; `C11_save_len_covers_written` — the
+  advertised `save_len` covers every slot the pattern writes (no fragment restriction).
+-/
 namespace Pelite.PatSem
 open Pelite.Pattern Pelite.Exec
 
-/-- placeholder while the proofs are being assembled: the reference compiler reproduces the parser on
-the documentation's alternatives example -/
-theorem C11_doc_example_alt :
-    parse (showPat [.byte 0x83, .alt [[.byte 0x6a, .any], [.byte 0x68, .any, .any, .any, .any]], .byte 0xe8]) =
-      .ok (compile [.byte 0x83, .alt [[.byte 0x6a, .any], [.byte 0x68, .any, .any, .any, .any]], .byte 0xe8]) := by
+/-! ## T1 — the parser implements the documented syntax -/
+
+/-- **T1.** For every well-formed pattern tree — any nesting depth, every operator, any white space between
+tokens, either letter case — parsing its pattern string yields exactly the reference compiler's atoms:
+skips coalesced (but never into the alternative before a `)`), `Push`/jump pairs for braces, the
+`Case n … Break m … Nop …` layout for alternatives, `Rangext` for operands ≥ 256, one save slot per
+`'`/`i`/`u`/`z` in order of appearance with alternatives sharing numbers, redundant trailing atoms trimmed.
+`WF p`: operands in range (`b < 256`, bounds `< 16384`, `a < b`, `@n` with `n < 36`, read sizes 1/2/4),
+quoted text free of `"`, white space ∈ {SP, TAB, LF, CR}, at least one alternative per `( )`, brace
+nesting ≤ 255, at most 254 slots besides slot 0, and every `Case`/`Break` offset `< 256`. -/
+theorem C11_parse_render (sty : Style) (p : Pat) (h : WF p = true) :
+    parse (render sty p) = .ok (compile p) :=
+  parse_render sty p h
+
+/-- the same tree in two spellings (lower / upper case) parses to the same atoms -/
+theorem C11_parse_case_insensitive (p : Pat) (h : WF p = true) : parse (showPat p) = parse (showPatUpper p) := by
+  rw [parse_showPat p h, parse_showPatUpper p h]
+
+/-- white space carries no meaning: neither the compiler nor the semantics sees a `ws` item … -/
+theorem C11_ws_compile (k : Nat) (pend : Option Nat) (s : List UInt8) (r : List Item) :
+    comp k pend (.ws s :: r) = comp k pend r := by rw [comp]
+
+/-- … so the string with the white space item and the one without mean the same -/
+theorem C11_ws_sem (S : ScanI) (k : Nat) (s : List UInt8) (r : List Item) (c : Nat) :
+    sem S k (.ws s :: r) c = sem S k r c := by
+  rw [sem_cons S k _ r c (by intro a b h; cases h)]
+  simp [semItem, slotsItem, thenRes_nil]
+
+/-! ## T2 — the interpreter implements the documented semantics (on the fragment) -/
+
+/-- **T2 (`_partial`: restricted to `InFragment p`).**  Running the reference compiler's output at cursor
+`c` returns normally (no panic / UB / divergence), answers `true` exactly when the documented semantics
+matches, and then the save array holds — in the slots the caller's array has — the match position in
+slot 0 and every bookmarked cursor and sign- or zero-extended read value the documentation specifies;
+its length is unchanged.  `S.WF` and `Coherent S` hold for every image below 4 GiB
+(`C11_interfaces`); the pointer width is `S.fmt` (arbitrary).
+
+`InFragment p` (decidable, `Spec/PatternSem.lean`) = `scopeOK true p` ∧ "no `Many` among the trimmed atoms":
+every `[a-b]` stands in a sequence that ends where its frame ends — a brace body, a non-last alternative,
+the whole pattern, or a last alternative behind whose `)` nothing but white space / `[0]` / `""` follows
+(transitively up to such a frame) — and no `[a-b]` is trimmed from the end of the pattern.
+What is missing for an unconditional T2: exactly the two deviations below. -/
+theorem C11_exec_compile_partial {S : ScanI} (hS : S.WF) (hC : Coherent S) (p : Pat) (hwf : WF p = true)
+    (hfr : InFragment p = true) (c : Nat) (hc : c < 4294967296) (save0 : Array Nat) :
+    ∃ save, run S (compile p) c save0 = .ok ((denote S p c).isSome, save) ∧ save.size = save0.size ∧
+      ∀ c' w, denote S p c = some (c', w) → ∀ s v, (s, v) ∈ w → s < save0.size → save[s]? = some v :=
+  run_compile hS hC p hwf hfr c hc save0
+
+/-- Before trimming T2 needs only the first half of the fragment condition (`scopeOK true p`): the untrimmed
+code implements the documented semantics also for a trailing `[a-b]`. -/
+theorem C11_exec_compileRaw_partial {S : ScanI} (hS : S.WF) (hC : Coherent S) (p : Pat) (hwf : WF p = true)
+    (hcl : scopeOK true p = true) (c : Nat) (hc : c < 4294967296) (save0 : Array Nat) :
+    ∃ save, run S (compileRaw p) c save0 = .ok ((denote S p c).isSome, save) ∧ save.size = save0.size ∧
+      ∀ c' w, denote S p c = some (c', w) → ∀ s v, (s, v) ∈ w → s < save0.size → save[s]? = some v :=
+  run_compileRaw hS hC p hwf hcl c hc save0
+
+/-- every specified slot is written at most once by a successful match, so "`(s, v) ∈ w`" above is the
+same as "`w.get s = some v`": the slots of a match lie in `[1, slotsItems 1 p)` plus slot 0 -/
+theorem C11_captures_in_range (S : ScanI) (p : Pat) (c c' : Nat) (w : Caps) (h : denote S p c = some (c', w)) :
+    ∀ s v, (s, v) ∈ w → s < slotsItems 1 p := by
+  simp only [denote, Option.map_eq_some_iff] at h
+  obtain ⟨⟨c1, w1⟩, hs, he⟩ := h
+  simp only [Prod.mk.injEq] at he
+  obtain ⟨_, rfl⟩ := he
+  intro s v hm
+  rcases List.mem_append.1 hm with h1 | h1
+  · exact (sem_slots S 1 p c c1 w1 hs s v h1).2
+  · simp only [List.mem_singleton, Prod.mk.injEq] at h1
+    have := slotsItems_le 1 p
+    omega
+
+/-- the image interfaces the scanner is instantiated with satisfy the hypotheses of T2: raw buffers,
+mapped images (`PeView`) and file images (`PeFile`) whose sections' virtual extents do not overlap
+(`secsDisjointB`, decidable; what the driver reports as part of `hyp`) —
+for both `Fmt.pe32` and `Fmt.pe64` (the format is a field of the view). -/
+theorem C11_interfaces :
+    (∀ (f : Pe.Fmt) (b : Bytes), b.size < 4294967296 → (ofRaw f b).WF ∧ Coherent (ofRaw f b)) ∧
+    (∀ v : Pe.View, v.kind = .view → v.b.size < 4294967296 → (ofView v).WF ∧ Coherent (ofView v)) ∧
+    (∀ v : Pe.View, v.kind = .file → v.b.size < 4294967296 → secsDisjointB v.secs = true →
+      (ofView v).WF ∧ Coherent (ofView v)) :=
+  ⟨fun f b hb => ⟨ofRaw_wf f b hb, coherent_ofRaw f b hb⟩,
+   fun v hk hsz => ⟨ofView_wf v hsz, coherent_ofView_view v hk hsz⟩,
+   fun v hk hsz hd => ⟨ofView_wf v hsz, coherent_ofView_file v hk (secsDisjoint_of_check _ hd)⟩⟩
+
+/-- the `memchr` peek shortcut of `exec_many` is sound on every coherent interface: when the first `Byte`
+behind the `Save`s at `pc` differs from the byte under the cursor, the attempt the shortcut skips would
+have failed (this is the lemma the `[a-b]` case of T2 rests on) -/
+theorem C11_peek_shortcut {S : ScanI} (hS : S.WF) {U : List Atom} (hB : ∀ b, Atom.byte b ∈ U → b < 256)
+    {b c : Nat} (hne : S.read 1 c ≠ some b) (pc : Nat) (sv : Array Nat) (hpk : peekByte (U.drop pc) = some b) :
+    (execT S U ⟨pc, c, sv⟩ 0xff 0).1 = false :=
+  peek_fail hS hB hne _ pc sv rfl hpk
+
+/-! ## T3 — pattern strings -/
+
+/-- **the advertised save length covers every slot the pattern writes** — for every well-formed tree
+(no fragment restriction), every image, every cursor: a slot written by a documented match is below
+`save_len` of the parsed pattern. -/
+theorem C11_save_len_covers_written (sty : Style) (p : Pat) (hwf : WF p = true) (atoms : List Atom)
+    (hp : parse (render sty p) = .ok atoms) (S : ScanI) (c c' : Nat) (w : Caps)
+    (h : denote S p c = some (c', w)) : ∀ s v, (s, v) ∈ w → s + 1 ≤ saveLen atoms := by
+  rw [parse_render sty p hwf] at hp
+  cases hp
+  intro s v hm
+  have h1 := C11_captures_in_range S p c c' w h s v hm
+  have h2 := saveLen_compile_ge p
+  omega
+
+/-- **T3 (`_partial`: restricted to `InFragment p`).**  For every well-formed pattern tree of the fragment and
+every spelling `render sty p` of its pattern string: the string parses, and executing the parsed pattern
+at `c` accepts exactly when the documented semantics does; on success every specified slot holds the
+documented capture (slot 0 = the match position) and lies below the advertised save length. -/
+theorem C11_pattern_string_semantics_partial (sty : Style) (p : Pat) (hwf : WF p = true) (hfr : InFragment p = true)
+    {S : ScanI} (hS : S.WF) (hC : Coherent S) (c : Nat) (hc : c < 4294967296) (save0 : Array Nat) :
+    ∃ atoms save, parse (render sty p) = .ok atoms ∧
+      run S atoms c save0 = .ok ((denote S p c).isSome, save) ∧ save.size = save0.size ∧
+      ∀ c' w, denote S p c = some (c', w) → ∀ s v, (s, v) ∈ w →
+        (s < save0.size → save[s]? = some v) ∧ s + 1 ≤ saveLen atoms := by
+  obtain ⟨save, h1, h2, h3⟩ := run_compile hS hC p hwf hfr c hc save0
+  refine ⟨compile p, save, parse_render sty p hwf, h1, h2, ?_⟩
+  intro c' w hd s v hm
+  exact ⟨h3 c' w hd s v hm, C11_save_len_covers_written sty p hwf _ (parse_render sty p hwf) S c c' w hd s v hm⟩
+
+/-- in particular slot 0 is the match position -/
+theorem C11_slot0_is_match_position (S : ScanI) (p : Pat) (c c' : Nat) (w : Caps)
+    (h : denote S p c = some (c', w)) : (0, c) ∈ w := by
+  simp only [denote, Option.map_eq_some_iff] at h
+  obtain ⟨⟨c1, w1⟩, _, he⟩ := h
+  simp only [Prod.mk.injEq] at he
+  obtain ⟨_, rfl⟩ := he
+  simp
+
+/-! ## Deviations of the implementation from the documented semantics
+
+Both are replayable on the real code (`pat_sem` op lines in the report / `vlib/gen_patsem.py`
+`gen_deviation_witnesses`). -/
+
+/-- `(aa|[0-3]bb)cc` -/
+def devLastAlt : Pat := [.alt [[.byte 0xaa], [.range 0 3, .byte 0xbb]], .byte 0xcc]
+/-- `([0-3]bb|aa)cc` : the same alternatives in the other order -/
+def devFirstAlt : Pat := [.alt [[.range 0 3, .byte 0xbb], [.byte 0xaa]], .byte 0xcc]
+/-- `aa[0-5]` -/
+def devTrailing : Pat := [.byte 0xaa, .range 0 5]
+/-- `aa[0-5]'` -/
+def devTrailingSave : Pat := [.byte 0xaa, .range 0 5, .save]
+
+/-- **Deviation 1: the last alternative is not a scope.**  On the bytes `bb bb cc` the documented semantics
+of `(aa|[0-3]bb)cc` is "no match": the second alternative matches with skip 0 (non greedy, first
+match), the choice is final, and `cc` does not follow.  The implementation answers `true`: `Nop, Aₙ…`
+runs inline, so `exec_many` retries the skip over everything up to the end of the enclosing group.
+With the alternatives swapped (`([0-3]bb|aa)cc`) it answers `false`, as documented. -/
+theorem C11_deviation_last_alternative :
+    WF devLastAlt = true ∧ InFragment devLastAlt = false ∧
+    denote (ofRaw .pe32 #[0xbb, 0xbb, 0xcc]) devLastAlt 0 = none ∧
+    run (ofRaw .pe32 #[0xbb, 0xbb, 0xcc]) (compile devLastAlt) 0 #[0] = .ok (true, #[0]) ∧
+    parse (showPat devLastAlt) = .ok (compile devLastAlt) ∧
+    -- the mirrored pattern behaves as documented
+    denote (ofRaw .pe32 #[0xbb, 0xbb, 0xcc]) devFirstAlt 0 = none ∧
+    run (ofRaw .pe32 #[0xbb, 0xbb, 0xcc]) (compile devFirstAlt) 0 #[0] = .ok (false, #[0]) := by
+  decide +kernel
+
+/-- **Deviation 2: a trailing `[a-b]` is trimmed.**  `aa[0-5]` at the last byte of the buffer: the
+implementation answers `true` (the parser dropped the `Many`), while `aa[0-5]'` at the same place answers
+`false` (`exec_many` finds no candidate position in the empty slice) — the reference semantics follows
+the untrimmed behaviour in both cases. -/
+theorem C11_deviation_trailing_range :
+    WF devTrailing = true ∧ InFragment devTrailing = false ∧
+    denote (ofRaw .pe32 #[0x00, 0xaa]) devTrailing 1 = none ∧
+    run (ofRaw .pe32 #[0x00, 0xaa]) (compile devTrailing) 1 #[0] = .ok (true, #[1]) ∧
+    parse (showPat devTrailing) = .ok (compile devTrailing) ∧
+    InFragment devTrailingSave = true ∧
+    denote (ofRaw .pe32 #[0x00, 0xaa]) devTrailingSave 1 = none ∧
+    run (ofRaw .pe32 #[0x00, 0xaa]) (compile devTrailingSave) 1 #[0, 0] = .ok (false, #[1, 0]) := by
+  decide +kernel
+
+/-- consequently T2 without `InFragment` is false -/
+theorem C11_exec_compile_unrestricted_false :
+    ¬ ∀ (S : ScanI), S.WF → Coherent S → ∀ (p : Pat), WF p = true → ∀ (c : Nat), c < 4294967296 → ∀ (save0 : Array Nat),
+      ∃ save, run S (compile p) c save0 = .ok ((denote S p c).isSome, save) := by
+  intro h
+  obtain ⟨save, hs⟩ := h (ofRaw .pe32 #[0xbb, 0xbb, 0xcc]) (ofRaw_wf _ _ (by decide)) (coherent_ofRaw _ _ (by decide))
+    devLastAlt (by decide +kernel) 0 (by decide) #[0]
+  have h1 := C11_deviation_last_alternative.2.2.2.1
+  have h2 := C11_deviation_last_alternative.2.2.1
+  rw [h1, h2] at hs
+  cases hs
+
+/-! ## Readings of the documentation, pinned down on concrete inputs
+
+Not deviations: places where the documentation is silent or ambiguous and the reference semantics takes
+the reading the implementation has (all covered by T2). -/
+
+/-- `[a-b]`: the upper bound is EXCLUSIVE ("lower and upper bound of number of bytes to skip" could be read
+inclusively): `aa[0-2]bb` does not accept a skip of 2, `aa[0-3]bb` does — in the reference semantics and
+in the implementation alike. -/
+theorem C11_reading_upper_bound_exclusive :
+    denote (ofRaw .pe32 #[0xaa, 0, 0, 0xbb]) [.byte 0xaa, .range 0 2, .byte 0xbb] 0 = none ∧
+    run (ofRaw .pe32 #[0xaa, 0, 0, 0xbb]) (compile [.byte 0xaa, .range 0 2, .byte 0xbb]) 0 #[0] = .ok (false, #[0]) ∧
+    denote (ofRaw .pe32 #[0xaa, 0, 0, 0xbb]) [.byte 0xaa, .range 0 3, .byte 0xbb] 0 = some (4, [(0, 0)]) ∧
+    run (ofRaw .pe32 #[0xaa, 0, 0, 0xbb]) (compile [.byte 0xaa, .range 0 3, .byte 0xbb]) 0 #[0] = .ok (true, #[0]) := by
+  decide +kernel
+
+/-- wildcards and fixed skips only move the cursor — the skipped bytes need not exist: `aa??'` matches at
+the last byte of the buffer and bookmarks a position beyond it; `@n` with `n ≥ 32` is ignored. -/
+theorem C11_reading_wildcards_do_not_read :
+    denote (ofRaw .pe32 #[0, 0xaa]) [.byte 0xaa, .any, .any, .save, .aligned 35] 1 = some (4, [(1, 4), (0, 1)]) ∧
+    run (ofRaw .pe32 #[0, 0xaa]) (compile [.byte 0xaa, .any, .any, .save, .aligned 35]) 1 #[0, 0] = .ok (true, #[1, 4]) := by
+  decide +kernel
+
+/-! ## Non-vacuity -/
+
+/-- `e8 ${ ' ( 6a ? | 68 [2-4] c3 ' ) } u1 * "ok" [300] @2 i2` — groups, alternatives with different slot
+counts, a range inside a non-last alternative, reads, alignment: in the fragment -/
+def exTree : Pat :=
+  [.byte 0xe8, .ws [32], .group .j4 [32] [.ws [32], .save, .alt [[.byte 0x6a, .any], [.byte 0x68, .range 2 4, .byte 0xc3, .save], []]],
+   .ws [32], .readU 1, .jump .ptr, .str [111, 107], .skip 300, .aligned 2, .readI 2]
+
+example : WF exTree = true ∧ InFragment exTree = true := by decide +kernel
+
+/-- a `[a-b]` directly inside a LAST alternative is inside the fragment when nothing follows the `)`:
+`e8 ${ ( aa | [0-3] bb ' ) } cc` -/
+example : InFragment [.byte 0xe8, .group .j4 [] [.alt [[.byte 0xaa], [.range 0 3, .byte 0xbb, .save]], .ws [32]], .byte 0xcc] = true := by
+  decide +kernel
+
+example : (ofRaw .pe64 #[1, 2, 3]).WF ∧ Coherent (ofRaw .pe64 #[1, 2, 3]) :=
+  C11_interfaces.1 _ _ (by decide)
+
+/-- a matching layout for a smaller tree, evaluated by the kernel on both sides:
+`e8 ${ ' aa } u1` on `e8 02000000 99 ff aa` captures the call target 7 and the byte 0x99 -/
+example :
+    denote (ofRaw .pe64 #[0xe8, 2, 0, 0, 0, 0x99, 0xff, 0xaa])
+      [.byte 0xe8, .group .j4 [] [.save, .byte 0xaa], .readU 1] 0 = some (6, [(2, 0x99), (1, 7), (0, 0)]) ∧
+    run (ofRaw .pe64 #[0xe8, 2, 0, 0, 0, 0x99, 0xff, 0xaa])
+      (compile [.byte 0xe8, .group .j4 [] [.save, .byte 0xaa], .readU 1]) 0 #[0, 0, 0, 0] = .ok (true, #[0, 7, 0x99, 0]) := by
   decide +kernel
 
 end Pelite.PatSem
